@@ -69,8 +69,9 @@ def gen_behav(rng, profile):
             b["kid_term"] = rng.choice([["obey", 0], ["ignore"]])
         if rng.random() < profile.get("exec_fail", 0.08):
             b["exec_fail"] = True
-        if rng.random() < profile.get("slow_spawn", 0.15):
-            b["spawn_ms"] = rng.choice([20, 50, 150, 400])
+        # a fork/exec always takes time: two workers of one watcher never share their `Process.started` (with ties the
+        # surplus sort of manage_processes would keep dict order — the live cross-check showed a real kernel never ties)
+        b["spawn_ms"] = rng.choice([20, 50, 150, 400]) if rng.random() < profile.get("slow_spawn", 0.15) else rng.choice([1, 1, 2, 5])
         out.append(b)
     return out
 
@@ -338,7 +339,7 @@ def _req(cmd, rid, **props):
 
 def recipe_on_demand_stop(rng):
     """an on-demand watcher whose socket-triggered start (detached, paced by warmup) is overtaken by a stop"""
-    sc = {"arb": {"warmup_ms": 0}, "behav": [{"term": ["obey", rng.choice([0, 0, 50])], "kill_lat": 0}],
+    sc = {"arb": {"warmup_ms": 0}, "behav": [{"term": ["obey", rng.choice([0, 0, 50])], "kill_lat": 0, "spawn_ms": 1}],
           "watchers": [_w("a", np=rng.choice([2, 3, 4]), warmup_ms=rng.choice([100, 300]), graceful_ms=rng.choice([0, 100]),
                           on_demand=True)]}
     if rng.random() < 0.4:
@@ -355,7 +356,7 @@ def recipe_on_demand_stop(rng):
 def recipe_untracked_zombies(rng):
     """workers that the daemon no longer tracks (rm --nostop) die: the arbiter's waitpid(-1) loop has to collect them all"""
     n = rng.choice([2, 3, 4])
-    sc = {"arb": {"warmup_ms": 0}, "behav": [{"term": ["obey", 0], "kill_lat": 0}],
+    sc = {"arb": {"warmup_ms": 0}, "behav": [{"term": ["obey", 0], "kill_lat": 0, "spawn_ms": 1}],
           "watchers": [_w("a", np=n), _w("B", np=rng.choice([0, 1]), priority=-1)]}
     pre = [["start"]] + [["wake"]] * 4 + [_req("rm", "q1", name="a", nostop=True)]
     pre += [(lambda i: (lambda v: ["die", 100 + i, rng.choice([0, 256, 9])]))(i) for i in range(n)]
@@ -365,7 +366,7 @@ def recipe_untracked_zombies(rng):
 
 def recipe_topup_start(rng):
     """several watchers started together while a running one is short of workers"""
-    sc = {"arb": {"warmup_ms": rng.choice([0, 100])}, "behav": [{"term": ["obey", 0], "kill_lat": 0}],
+    sc = {"arb": {"warmup_ms": rng.choice([0, 100])}, "behav": [{"term": ["obey", 0], "kill_lat": 0, "spawn_ms": 1}],
           "watchers": [_w("a", np=rng.choice([2, 3]), priority=2, warmup_ms=rng.choice([100, 300]), respawn=False),
                        _w("B", np=rng.choice([1, 2]), priority=0, warmup_ms=100)]}
     pre = [["start"]] + [["wake"]] * 8 + [_req("stop", "q1", name="B", waiting=True)] + [["wake"]] * 3
@@ -380,7 +381,7 @@ def recipe_topup_start(rng):
 def recipe_signal_veto(rng):
     """a before_signal hook that says no, and requests that name a signal — SIGKILL included, which no hook may hold back"""
     outs = rng.choice([["false"], ["false", "true"], ["raise"], ["false", "false", "true"]])
-    sc = {"arb": {"warmup_ms": 0}, "behav": [{"term": rng.choice([["obey", 0], ["ignore"]]), "kill_lat": rng.choice([0, 1])}],
+    sc = {"arb": {"warmup_ms": 0}, "behav": [{"term": rng.choice([["obey", 0], ["ignore"]]), "kill_lat": rng.choice([0, 1]), "spawn_ms": 1}],
           "watchers": [_w("a", np=rng.choice([1, 2]), graceful_ms=rng.choice([100, 300]),
                           hooks={"before_signal": {"out": outs, "ignore": rng.random() < 0.3}})]}
     pre = [["start"]] + [["wake"]] * 4
@@ -402,7 +403,7 @@ def recipe_signal_veto(rng):
 
 def recipe_singleton_set(rng):
     """a singleton watcher and requests that try to give it more than one process"""
-    sc = {"arb": {"warmup_ms": 0}, "behav": [{"term": ["obey", 0], "kill_lat": 0}],
+    sc = {"arb": {"warmup_ms": 0}, "behav": [{"term": ["obey", 0], "kill_lat": 0, "spawn_ms": 1}],
           "watchers": [_w("a", np=1, singleton=True), _w("B", np=rng.choice([1, 2]), priority=-1)]}
     pre = [["start"]] + [["wake"]] * 5
     if rng.random() < 0.4:
